@@ -71,6 +71,17 @@ Example C01_nonvacuous :
   In EStarted (table SNone SOngoing).
 Proof. repeat split; simpl; auto. Qed.
 
+(* ---- the executable judgement of the correspondence check is sound for the model, and transfers: whenever the
+   implementation's output agrees with the model's on a case, the judgement accepts it (for EVERY case, not only the
+   ones that were run).  Statements about coq/Check; proofs in coq/Proofs/Judge*.v ---- *)
+From BEI Require Check.Datac Proofs.JudgeDataP.
+Theorem C01_unit_judgement_sound_exact : forall a steps, Datac.ok_C01u (Datac.udata a steps, Datac.model (Datac.udata a steps)) = 0%Z <-> JudgeDataP.steps_wf01 a steps.
+Proof. exact JudgeDataP.C01u_judgement_sound_exact. Qed.
+
+Theorem C01_unit_judgement_transfer : forall a steps o, JudgeDataP.steps_wf01 a steps -> Datac.agree (Datac.udata a steps, o) = true -> Datac.ok_C01u (Datac.udata a steps, o) = 0%Z.
+Proof. exact JudgeDataP.C01u_judgement_transfer. Qed.
+
+
 Print Assumptions C01_table.
 Print Assumptions C01_started_first.
 Print Assumptions C01_payload.
@@ -99,3 +110,5 @@ Theorem C01_world_frame : forall sc c e a tm r c0 gs,
     end.
 Proof. exact track_frame. Qed.
 Print Assumptions C01_world_frame.
+Print Assumptions C01_unit_judgement_sound_exact.
+Print Assumptions C01_unit_judgement_transfer.
